@@ -34,9 +34,13 @@ A model is a record of references.  The aliasing edges, as the code creates them
 What is abstract: data sets are ids; the data-derived quantities `knots d feature categorical`
 (`gen_edge_knots`) and `ncat d feature` (`len(np.unique(..))`) are parameters (`Env`); the outcome of a fit is
 represented by its *input* `FitIn` (class, model settings, compiled terms, data): every interpretation
-`fitResult : FitIn → coefficients × statistics × scale` factors through it.  That PIRLS converges to the
-optimum determined by `FitIn` irrespective of its starting point (warm start from the previous `coef_`) is a
-modelling assumption (C01) which the harness measures on every refit.  Only successful calls are modelled
+`fitResult : FitIn → coefficients × statistics × scale` factors through it.  This mirrors the code: a user-level
+`fit` deletes a `coef_` left over from a previous fit (`del self.coef_`), so `_pirls` starts from `_initial_estimate`
+exactly like a brand-new model; only a grid-search candidate (`_warm_start = True`) starts from the previous model's
+coefficients, and that run is redone cold when it raises or does not converge.  That a warm-started candidate which
+does converge reaches the optimum determined by `FitIn` is a modelling assumption (C01) which the harness measures on
+every candidate against a brand-new model (tolerance tied to `tol`).  The log entries of an abandoned warm-started run
+stay in `logs_`: `iters` counts them.  Only successful calls are modelled
 (plus the `AttributeError` of queries on an unfitted model); NumPy aliasing of caller arrays is outside the model.
 -/
 namespace PyGam.Heap
@@ -163,11 +167,11 @@ structure Model where
   mset : Nat
   scaleKnown : Bool
   /-- `self.terms`: ids of the term objects -/
-  terms : List Id
+  terms : List Nat
   /-- `self.distribution` -/
-  dist : Id
+  dist : Nat
   /-- `self.logs_` (absent before the first fit) -/
-  logs : Option Id
+  logs : Option Nat
   /-- binding of `coef_` / `statistics_`: the results of the fit with this input -/
   fitted : Option FitIn
   deriving DecidableEq, Repr
@@ -177,15 +181,15 @@ structure World where
   dists : List DistObj := []
   logs : List (List Data) := []
   /-- term expressions held by the caller (lists of term objects) -/
-  exprs : List (List Id) := []
+  exprs : List (List Nat) := []
   models : List Model := []
   deriving DecidableEq, Repr
 
 def World.empty : World := {}
 
-def World.term (w : World) (t : Id) : TermObj := w.terms.getD t default
-def World.dist (w : World) (d : Id) : DistObj := w.dists.getD d default
-def World.log (w : World) (l : Id) : List Data := w.logs.getD l []
+def World.term (w : World) (t : Nat) : TermObj := w.terms.getD t default
+def World.dist (w : World) (d : Nat) : DistObj := w.dists.getD d default
+def World.log (w : World) (l : Nat) : List Data := w.logs.getD l []
 
 /-- a model seen by value: everything reachable from it -/
 structure ModelView where
@@ -244,7 +248,7 @@ def predict {R V : Type} (P : PredKey → R → V) (k : PredKey) (X : List R) : 
 /-! ## the public calls -/
 
 /-- ids of `n` cells allocated at the end of a heap of size `start` -/
-def freshIds (start n : Nat) : List Id := List.range' start n
+def freshIds (start n : Nat) : List Nat := List.range' start n
 
 /-- `s(..) + l(..) + …` with all-new term objects -/
 def mkExpr (w : World) (specs : List TermSet) : World :=
@@ -320,22 +324,26 @@ def prepare (env : Env) (w : World) (i : Nat) (d : Data) : World :=
              models := w.models.set i { m with terms := freshIds w.terms.length cells.length,
                                                dist := if rec' then w.dists.length else m.dist } }
 
-/-- `fit(X_d, y_d, w_d)` taking `iters` PIRLS iterations -/
-def fitModel (env : Env) (w : World) (i : Nat) (d : Data) (iters : Nat) : World :=
-  let w1 := prepare env w i d
-  match w1.models[i]? with
-  | none => w1
+/-- the rest of `fit` once the parameters are validated: `logs_` created only if missing; `_pirls` appends one
+log entry per iteration, rebinds `coef_` / `statistics_` and writes `distribution.scale` unless it is known -/
+def pirls (w : World) (i : Nat) (d : Data) (iters : Nat) : World :=
+  match w.models[i]? with
+  | none => w
   | some m =>
     let inp : FitIn := { cls := m.cls, mset := m.mset, scaleKnown := m.scaleKnown,
-                         terms := m.terms.map w1.term, data := d }
+                         terms := m.terms.map w.term, data := d }
     -- `if not hasattr(self, 'logs_'): self.logs_ = defaultdict(list)`
-    let logs1 := match m.logs with
-      | some _ => w1.logs
-      | none => w1.logs ++ [[]]
-    let lid := m.logs.getD w1.logs.length
-    { w1 with logs := upd logs1 lid (· ++ List.replicate iters d),
-              dists := upd w1.dists m.dist (fun o => if o.known then o else { o with scale := some inp }),
-              models := w1.models.set i { m with logs := some lid, fitted := some inp } }
+    let logs1 := w.logs ++ (match m.logs with
+      | some _ => []
+      | none => [[]])
+    let lid := m.logs.getD w.logs.length
+    { w with logs := upd logs1 lid (· ++ List.replicate iters d),
+             dists := upd w.dists m.dist (fun o => if o.known then o else { o with scale := some inp }),
+             models := w.models.set i { m with logs := some lid, fitted := some inp } }
+
+/-- `fit(X_d, y_d, w_d)` taking `iters` PIRLS iterations -/
+def fitModel (env : Env) (w : World) (i : Nat) (d : Data) (iters : Nat) : World :=
+  pirls (prepare env w i d) i d iters
 
 /-- one grid-search candidate: `gam = deepcopy(self); gam.set_params(lam=c); gam.fit(X_d, …)`;
 `c = (lam code, iterations)`; the candidate gets index `w.models.length` -/
